@@ -101,8 +101,23 @@ Proof.
 Qed.
 
 (* ---------------------------------------------------------------- the block's value and the value region *)
+(* what lies in a scope's part of the operand stack at a statement boundary: nothing, the value of the region, and under
+   that value at most the nil a calling operator left in the new scope *)
+Definition under (t:list value) : Prop := t = [] \/ t = [VNil].
 Definition reg_rep (reg:rvalue) (top:list value) : Prop :=
-  match top with [] => reg = RNone | x :: _ => x = cv reg /\ reg <> RNone end.
+  match top with [] => reg = RNone | x :: t => x = cv reg /\ reg <> RNone /\ under t end.
+(* where a statement starts: at the bottom of the scope's part, or on the nil of the calling operator *)
+Definition Fresh (c:context) (below:list value) : Prop := c_values c = below \/ c_values c = VNil :: below.
+
+Lemma fresh_under c top below : c_values c = top ++ below -> Fresh c below -> under top.
+Proof.
+  intros EV [F|F]; rewrite EV in F.
+  - left. destruct top as [|x t]; [reflexivity|]. apply (f_equal (@length value)) in F. rewrite app_length in F. cbn in F. lia.
+  - right. destruct top as [|x [|y t]].
+    + apply (f_equal (@length value)) in F. cbn in F. lia.
+    + cbn in F. inversion F. reflexivity.
+    + apply (f_equal (@length value)) in F. cbn in F. rewrite app_length in F. lia.
+Qed.
 
 (* where the machine stands, relative to a reference state *)
 Definition At (s:sstate) (reg:rvalue) (r:rt) (c:context) (f:frame) (rest:list frame) (below:list value) : Prop :=
@@ -179,12 +194,13 @@ Lemma nss_set_nss r x : r_nss (set_nss r x) = x. Proof. reflexivity. Qed.
 
 (* one statement *)
 Lemma stmt_vm s reg st reg1 s1 : pstmt s reg st reg1 s1 ->
-  forall r c f rest below pre post, At s reg r c f rest below ->
+  forall r c f rest below pre post, At s reg r c f rest below -> Fresh c below ->
     f_code f = pre ++ compile_stmt st ++ post -> f_pos f = length pre ->
     exists r' c' f' rest', Steps r r' /\ At s1 reg1 r' c' f' rest' below /\
       moved f f' /\ f_pos f' = f_pos f + length (compile_stmt st) /\ Forall2 kept rest rest'.
 Proof.
-  intros HS r c f rest below pre post (G & EF & M & LB & top & EV & RR) EC EP.
+  intros HS r c f rest below pre post (G & EF & M & LB & top & EV & RR) FR EC EP.
+  pose proof (fresh_under c top below EV FR) as UT.
   assert (B : f_base f <= length (c_values c)) by (rewrite EV, app_length; lia).
   destruct HS as [e v HE|n e v NN HE|n e v NN HE]; cbn [compile_stmt] in *.
   - (* expression statement *)
@@ -194,7 +210,7 @@ Proof.
     { destruct M as [F N]. split; [|rewrite nss_upd_cur; exact N].
       inversion F as [|sc f0 scs fs FM F' E1 E2]; subst. try rewrite <- E1. constructor; [exact FM|exact F']. }
     split; [exact LB|]. exists (cv v :: top). split; [cbn; rewrite EV; reflexivity|].
-    split; [reflexivity|]. intros ->. apply NV. reflexivity.
+    split; [reflexivity|]. split; [intros ->; apply NV; reflexivity|exact UT].
   - (* assignment *)
     rewrite <- app_assoc in EC.
     destruct (proj1 (pure_sim _ _) e v HE r c f rest pre ([IAssign n] ++ post) G EF EC EP B (env_ok_of s r f rest M)) as [S1 NV].
@@ -291,7 +307,7 @@ Qed.
 (* ENDSTATEMENT empties the region *)
 Lemma end_vm s reg r c f rest below pre post : At s reg r c f rest below ->
   f_code f = pre ++ IEnd :: post -> f_pos f = length pre ->
-  exists r' c', Steps r r' /\ At s RNone r' c' (set_pos f (S (f_pos f))) rest below.
+  exists r' c', Steps r r' /\ At s RNone r' c' (set_pos f (S (f_pos f))) rest below /\ Fresh c' below.
 Proof.
   intros (G & EF & M & LB & top & EV & RR) EC EP.
   assert (N : nth_error (f_code f) (f_pos f) = Some IEnd) by (rewrite EC, EP; apply nth_error_mid).
@@ -301,7 +317,7 @@ Proof.
     replace (length top + length below - length below) with (length top) by lia. rewrite skipn_app, skipn_all, Nat.sub_diag. reflexivity. }
   destruct (run_one r c f rest IEnd _ G EF N EX) as [S1 G1].
   { destruct G as (_ & _ & _ & _ & _ & _ & SU). exact SU. }
-  eexists _, _. split; [exact S1|]. split; [exact G1|]. split; [reflexivity|]. split.
+  exists (upd_cur r (set_values c1 below)), (set_values c1 below). split; [exact S1|]. split; [|left; reflexivity]. split; [exact G1|]. split; [reflexivity|]. split.
   { destruct M as [F NS]. split; [|rewrite nss_upd_cur; exact NS]. inversion F as [|sc f0 scs fs FM F' E1 E2]; subst. try rewrite <- E1. constructor; assumption. }
   split; [exact LB|]. exists []. split; reflexivity.
 Qed.
@@ -310,31 +326,31 @@ Lemma compile_block_from_cons first st b : compile_block_from first (st :: b) = 
 Proof. reflexivity. Qed.
 
 Theorem block_vm : forall s reg b reg' s', pblock s reg b reg' s' ->
-  forall r c f rest below pre post, At s reg r c f rest below ->
+  forall r c f rest below pre post, At s reg r c f rest below -> Fresh c below ->
     f_code f = pre ++ compile_block_from true b ++ post -> f_pos f = length pre ->
     exists r' c' f' rest', Steps r r' /\ At s' reg' r' c' f' rest' below /\
       moved f f' /\ f_pos f' = f_pos f + length (compile_block_from true b) /\ Forall2 kept rest rest'.
 Proof.
-  induction 1 as [s reg|s reg st reg1 s1 HS|s reg st reg1 s1 st2 rest0 reg' s' HS HB IH]; intros r c f rest below pre post A EC EP.
+  induction 1 as [s reg|s reg st reg1 s1 HS|s reg st reg1 s1 st2 rest0 reg' s' HS HB IH]; intros r c f rest below pre post A FR EC EP.
   - exists r, c, f, rest. split; [apply StepsRefl|]. split; [exact A|]. split; [destruct f; reflexivity|]. split; [cbn; lia|apply kept_all_refl].
   - cbn [compile_block_from app] in *. rewrite app_nil_r in *.
-    exact (stmt_vm s reg st reg1 s1 HS r c f rest below pre post A EC EP).
+    exact (stmt_vm s reg st reg1 s1 HS r c f rest below pre post A FR EC EP).
   - rewrite compile_block_from_cons in EC. cbn [app] in EC.
     rewrite compile_block_from_cons in EC. cbn [app] in EC. rewrite <- app_assoc in EC. cbn [app] in EC.
-    destruct (stmt_vm s reg st reg1 s1 HS r c f rest below pre _ A EC EP) as (r1 & c1 & f1 & rest1 & S1 & A1 & MV1 & P1 & K1).
+    destruct (stmt_vm s reg st reg1 s1 HS r c f rest below pre _ A FR EC EP) as (r1 & c1 & f1 & rest1 & S1 & A1 & MV1 & P1 & K1).
     assert (EC1 : f_code f1 = (pre ++ compile_stmt st) ++ IEnd :: compile_stmt st2 ++ compile_block_from false rest0 ++ post).
     { rewrite <- MV1. cbn [f_code set_vars set_pos]. rewrite EC, <- !app_assoc. reflexivity. }
     assert (EP1 : f_pos f1 = length (pre ++ compile_stmt st)) by (rewrite app_length, P1, EP; reflexivity).
-    destruct (end_vm s1 reg1 r1 c1 f1 rest1 below _ _ A1 EC1 EP1) as (r2 & c2 & S2 & A2).
+    destruct (end_vm s1 reg1 r1 c1 f1 rest1 below _ _ A1 EC1 EP1) as (r2 & c2 & S2 & A2 & FR2).
     set (f2 := set_pos f1 (S (f_pos f1))) in *.
     (* the remaining block, seen as a block that starts here *)
-    assert (HB' : forall pre2 post2 r c f rest below, At s1 RNone r c f rest below ->
+    assert (HB' : forall pre2 post2 r c f rest below, At s1 RNone r c f rest below -> Fresh c below ->
               f_code f = pre2 ++ (compile_stmt st2 ++ compile_block_from false rest0) ++ post2 -> f_pos f = length pre2 ->
               exists r' c' f' rest', Steps r r' /\ At s' reg' r' c' f' rest' below /\ moved f f' /\
                 f_pos f' = f_pos f + length (compile_stmt st2 ++ compile_block_from false rest0) /\ Forall2 kept rest rest').
-    { intros pre2 post2 r0 c0 f0 rest2 below0 A0 EC0 EP0. apply (IH r0 c0 f0 rest2 below0 pre2 post2 A0); [|exact EP0].
+    { intros pre2 post2 r0 c0 f0 rest2 below0 A0 FR0 EC0 EP0. apply (IH r0 c0 f0 rest2 below0 pre2 post2 A0 FR0); [|exact EP0].
       rewrite compile_block_from_cons. cbn [app]. exact EC0. }
-    destruct (HB' (pre ++ compile_stmt st ++ [IEnd]) post r2 c2 f2 rest1 below A2) as (r3 & c3 & f3 & rest3 & S3 & A3 & MV3 & P3 & K3).
+    destruct (HB' (pre ++ compile_stmt st ++ [IEnd]) post r2 c2 f2 rest1 below A2 FR2) as (r3 & c3 & f3 & rest3 & S3 & A3 & MV3 & P3 & K3).
     { cbn [f2 set_pos f_code]. rewrite EC1. rewrite <- !app_assoc. cbn [app]. reflexivity. }
     { cbn [f2 set_pos f_pos]. rewrite EP1, !app_length. cbn. lia. }
     exists r3, c3, f3, rest3. split; [eapply steps_trans; [exact S1|eapply steps_trans; [exact S2|exact S3]]|].
